@@ -371,7 +371,7 @@ func (p *prog) run(actions []string) {
 	fmt.Fprintf(out, "CASE\t%s\t%s\n", p.id, p.spec())
 	fmt.Fprintf(out, "NS\t%d\n", p.lat.VNumSlots())
 	for k := 0; k < 26; k++ {
-		fmt.Fprintf(out, "SF\t%d\t%d\n", k, p.lat.VSlotID(kb(k)))
+		fmt.Fprintf(out, "SF\t%d\t%d\t%x\n", k, p.lat.VSlotID(kb(k)), kb(k))
 	}
 	// warm-up: the first successful commit makes run() spawn its first recycle (lastRecycleTime = 0); do it alone,
 	// on a key of its own, so that no later recycle goroutine races with the releases of the program proper
